@@ -419,14 +419,18 @@ def canon_dups(line_out, ops, out_words):
     """class answers for duplicated folded stems depend on read_dir order: keep only 'dup'"""
     res = list(out_words)
     i = 0
+    known = set()      # Gold files the server may hold a record of: on disk at some battery since the last fresh manager
+    #                    (a file removed from disk keeps its record — and its claim on the class name — until then)
     for kind, meta in ops:
+        if kind == "N":
+            known = set()
         if kind == "Q":
             disk = meta["disk"]
+            known |= {p for p, e in disk.items() if e[0] == "f" and is_god(os.path.basename(p))}
             cnt = {}
-            for p, e in disk.items():
-                if e[0] == "f" and is_god(os.path.basename(p)):
-                    k = py_stem(os.path.basename(p)).upper()
-                    cnt[k] = cnt.get(k, 0) + 1
+            for p in known:
+                k = py_stem(os.path.basename(p)).upper()
+                cnt[k] = cnt.get(k, 0) + 1
             for j, c in enumerate(meta["classes"]):
                 if cnt.get(c.upper(), 0) > 1 and i + 2 + j < len(res):
                     res[i + 2 + j] = res[i + 2 + j].split("=", 1)[0] + "=dup"
